@@ -80,6 +80,19 @@ func smallOrBig(r *lib.Rand, maxDigits int) *big.Int {
 	return x
 }
 
+// genCreateExact: budgets that are exact multiples of the reward per block, all rules running out in the same
+// block, the pool starting in the block of its creation (the remaining budget is then exactly 0 at the end height)
+func genCreateExact(r *lib.Rand, who int) Op {
+	op := Op{K: "create", Who: who, Lpt: r.Intn(2), Editable: r.Chance(85, 100)}
+	blocks := r.Range(3, 14)
+	ds := [][]int{{3}, {2, 3}, {2}}[r.Intn(3)]
+	for _, d := range ds {
+		pb := smallOrBig(r, 10)
+		op.Rules = append(op.Rules, Rule{D: d, Total: new(big.Int).Mul(pb, big.NewInt(blocks)).String(), PB: pb.String()})
+	}
+	return op
+}
+
 func genCreate(r *lib.Rand, who int) Op {
 	op := Op{K: "create", Who: who, Lpt: r.Intn(2), Editable: r.Chance(85, 100)}
 	op.StartOff = []int64{0, 0, 0, 0, 1, 2, 3, 5}[r.Intn(8)]
@@ -110,14 +123,80 @@ func genCreate(r *lib.Rand, who int) Op {
 	return op
 }
 
+// genManyPools: stream "manypools" — 11 or 12 pools so that pool ids are string prefixes of one another
+// (farm-1 / farm-10, farm-11, ...): farm-2..farm-9 are tiny and idle, farm-1, farm-10, farm-11 are worked on.
+func genManyPools(r *lib.Rand, tier string) History {
+	var h History
+	np := 11 + r.Intn(2)
+	for id := 1; id <= np; id++ {
+		var op Op
+		if id >= 2 && id <= 9 {
+			blocks := r.Range(30, 60)
+			op = Op{K: "create", Who: 0, Lpt: id % 2, Editable: true, Rules: []Rule{{D: 3, Total: fmt.Sprint(blocks), PB: "1"}}}
+		} else {
+			op = genCreateExact(r, 0)
+			op.Lpt = 0
+			op.Editable = true
+			if r.Chance(1, 2) { // not an exact multiple
+				op.Rules[0].Total = new(big.Int).Add(bigOf(op.Rules[0].Total), big.NewInt(r.Range(1, 3))).String()
+			}
+		}
+		h.Steps = append(h.Steps, op)
+	}
+	target := func() int { return []int{1, 1, 1, 10, 10, 11, np}[r.Intn(7)] }
+	n := 22 + r.Intn(16)
+	if tier == "thorough" {
+		n = 30 + r.Intn(40)
+	}
+	for k := 0; k < n; k++ {
+		w := 1 + r.Intn(3)
+		switch r.Weighted(30, 16, 14, 26, 5, 2, 4) {
+		case 0:
+			h.Steps = append(h.Steps, Op{K: "stake", Who: w, Pid: target(), D: -1, Amt: smallOrBig(r, 12).String(), Smart: r.Chance(1, 2)})
+		case 1:
+			h.Steps = append(h.Steps, Op{K: "unstake", Who: w, Pid: target(), D: -1, Amt: []string{"all", "half", "half", "1"}[r.Intn(4)], Smart: true})
+		case 2:
+			h.Steps = append(h.Steps, Op{K: "harvest", Who: w, Pid: target(), Smart: true})
+		case 3:
+			h.Steps = append(h.Steps, Op{K: "next", N: 1})
+		case 4:
+			op := Op{K: "adjust", Who: 0, Pid: target(), Smart: false}
+			if r.Chance(1, 2) {
+				op.Add = []Coin{{D: -1, A: smallOrBig(r, 8).String()}}
+			} else {
+				op.Rpb = []Coin{{D: -1, A: smallOrBig(r, 6).String()}}
+			}
+			h.Steps = append(h.Steps, op)
+		case 5:
+			h.Steps = append(h.Steps, Op{K: "destroy", Who: 0, Pid: target()})
+		case 6:
+			h.Steps = append(h.Steps, Op{K: "toend", Pid: target(), N: []int{0, 0, 1}[r.Intn(3)]})
+		}
+	}
+	h.Steps = append(h.Steps, Op{K: "toend", Pid: 1, N: r.Intn(2)})
+	return h
+}
+
 func gen(r *lib.Rand, tier, stream string, i int) History {
+	if stream == "manypools" {
+		return genManyPools(r, tier)
+	}
 	n := 10 + r.Intn(50)
 	if tier == "thorough" {
 		n = 10 + r.Intn(120)
 	}
 	var h History
 	npools := 1
-	h.Steps = append(h.Steps, genCreate(r, 0))
+	if r.Chance(1, 5) {
+		// an exact budget, somebody staked from the start block on, the pool runs out naturally
+		h.Steps = append(h.Steps, genCreateExact(r, 0), Op{K: "stake", Who: 1 + r.Intn(3), Pid: 1, D: -1, Amt: smallOrBig(r, 12).String()})
+		if r.Chance(1, 2) {
+			h.Steps = append(h.Steps, Op{K: "next", N: 1}, Op{K: "stake", Who: 1 + r.Intn(3), Pid: 1, D: -1, Amt: smallOrBig(r, 12).String()})
+		}
+		n = 4 + r.Intn(12)
+	} else {
+		h.Steps = append(h.Steps, genCreate(r, 0))
+	}
 	if r.Chance(1, 3) {
 		h.Steps = append(h.Steps, genCreate(r, []int{0, 0, 1}[r.Intn(3)]))
 		npools = 2
@@ -130,7 +209,20 @@ func gen(r *lib.Rand, tier, stream string, i int) History {
 	}
 	pid := func() int { return 1 + r.Intn(npools) }
 	for k := 0; k < n; k++ {
-		switch r.Weighted(30, 18, 14, 26, 6, 1, 2, 3, 3) {
+		switch r.Weighted(30, 18, 14, 26, 6, 1, 2, 3, 3, 5) {
+		case 9: // operations in exactly the pool's last block, at least one block after the last settlement
+			pp := pid()
+			h.Steps = append(h.Steps, Op{K: "toend", Pid: pp, N: 0})
+			for q := 1 + r.Intn(2); q > 0; q-- {
+				switch r.Intn(3) {
+				case 0:
+					h.Steps = append(h.Steps, Op{K: "unstake", Who: farmer(), Pid: pp, D: -1, Amt: []string{"all", "half"}[r.Intn(2)], Smart: true})
+				case 1:
+					h.Steps = append(h.Steps, Op{K: "harvest", Who: farmer(), Pid: pp, Smart: true})
+				default:
+					h.Steps = append(h.Steps, Op{K: "stake", Who: farmer(), Pid: pp, D: -1, Amt: smallOrBig(r, 12).String(), Smart: true})
+				}
+			}
 		case 0:
 			h.Steps = append(h.Steps, Op{K: "stake", Who: farmer(), Pid: pid(), D: -1, Amt: smallOrBig(r, 20).String(), Smart: r.Chance(9, 10)})
 		case 1:
